@@ -47,6 +47,9 @@ CLAIMS = {
  'C09': ("Decides the structural part of client-side resumption: the SSE scanner may dispatch only on a blank line that was actually read, only io.EOF is end of input and other read errors are terminal (two dispatch sites at end of input are the known finding D2); the resume cursor is assigned only from a non-empty id of an event yielded without error and is what connectSSE presents as Last-Event-ID; every resume-requesting return of processStream is dominated by the unresumable test whose branch hands the session a synthetic error for forCall.ID; every return of handleSSE is client-closed, already-failed-as-unresumable, or preceded by c.fail; every hand-off send is a select arm next to the connection's done channel; retry counter reset only on progress, incremented otherwise, compared before reconnecting; reconnect loop bounded and abortable. "
          "Not decided: exactly-once delivery over all byte offsets and reconnect outcomes.",
          "guard dominance on dispatch sites, value-source rules for the cursor, must-pass-through for error surfacing, select-arm structure rules, counter automaton rules", "§3 C09"),
+ 'C12': ("Decides that every documented precondition gate lies on all paths to the hand-off, by scenario: for each gate its violating condition is asserted in a three-valued evaluation of the function's CFG and the transport/session hand-off must be unreachable while the mandated status (403/415/400/413, -32020/-32602/-32022/-32601) is written; the body limit wrap precedes dispatch; mirror-header validation precedes publication and covers every single message; the version-mirror gate reads the body's _meta unconditionally; the client's header setters and the server's validators use the same header constants, helpers, Mcp-Name method set, base64 wrapper and integer range; the server decides a missing Mcp-Param header by presence because the encoder can emit an empty value; binding paths are fresh slices. "
+         "Not decided: completeness over all header sets and argument values (input space); header-safety of Mcp-Name values.",
+         "scenario-driven three-valued CFG evaluation (predicate abstraction), sibling agreement of encoder/validator tables and constants, alias rule for recursive slice building", "§3 C12"),
 }
 
 REASONS = {}
